@@ -47,9 +47,9 @@ pub fn judge_case(c: &Case) -> Obs {
     let mut obs = Obs::default();
     let mut spec = c.spec.clone();
     // no program input: the debugger and the program share stdin
-    spec.main.retain(|op| !matches!(op, proggen::PgOp::In(_)));
+    spec.main.retain(|op| !matches!(op, proggen::PgOp::In(_) | proggen::PgOp::InShow(_)));
     for s in &mut spec.subs {
-        s.retain(|op| !matches!(op, proggen::PgOp::In(_)));
+        s.retain(|op| !matches!(op, proggen::PgOp::In(_) | proggen::PgOp::InShow(_)));
     }
     let p = match prepare(&spec, Layout { seed: 5, style: 1, end: false }) {
         Ok(p) => p,
@@ -58,6 +58,9 @@ pub fn judge_case(c: &Case) -> Obs {
             return obs;
         }
     };
+    if let Some(l) = proggen::fit_label(&spec) {
+        obs.label(l);
+    }
     let cmds: Vec<Cmd> = c.cmds.iter().map(|r| make_mutating_cmd(&p, r)).collect();
     let more: Vec<Cmd> = c.more.iter().map(|r| make_mutating_cmd(&p, r)).collect();
     let text = |v: &[Cmd]| v.iter().enumerate().map(|(i, c)| c.text(i as u8)).collect::<Vec<_>>().join("\n");
@@ -169,6 +172,9 @@ impl Prop for C12 {
     fn run_worker(&self, ctx: &Ctx, rep: &mut Report) {
         let n = ctx.share(ctx.tier.pick(20_000, 200_000));
         drive(ctx, rep, "histories", cases(), n, &mut |c: &Case| judge_case(c));
+    }
+    fn fuzz_strategy(&self) -> Option<BoxedStrategy<Value>> {
+        Some(crate::fuzzmode::jv(cases()))
     }
     fn replay(&self, _ctx: &Ctx, case: &Value) -> Obs {
         match serde_json::from_value::<Case>(case.clone()) {
